@@ -31,6 +31,18 @@ Theorem C01_cycles_keep_rhs : forall rem k d pre post x f r b,
   In b (all_writes (cyc k rem d pre post x f r)) -> b = x \/ b = r \/ (d < fst b /\ snd b <> Rhs).
 Proof. exact cyc_writes. Qed.
 
+(* conditional half of the first clause: IF the tested norm contracts by rho < 1 per cycle, the regenerated stop test fires within
+   any budget K with rho^K <= rtol, and the mean reduction factor reported after k cycles is at most rho (its k-th power is at
+   most rho^k).  The premise -- contraction for every supported configuration -- is multigrid convergence analysis and is NOT a
+   theorem here; the check searches the configuration set for a run that uses its whole budget. *)
+Theorem C01_stop_within_budget_if_contraction_partial : forall (r : nat -> R) (rho rtol : R) (atol : option R) (K : nat),
+  (0 <= rho)%R -> (0 < r 0%nat)%R -> (forall k, (r (S k) <= rho * r k)%R) -> (rho ^ K <= rtol)%R ->
+  @ConvergedGen.gen_converged ScalarR.Rsc atol (Some rtol) (r K) (r K / r 0%nat)%R = true.
+Proof. exact StopProofs.stop_within_budget_if_contraction. Qed.
+Theorem C01_mean_factor_bound_if_contraction_partial : forall (r : nat -> R) (rho : R) (k : nat),
+  (0 <= rho)%R -> (0 < r 0%nat)%R -> (forall j, (r (S j) <= rho * r j)%R) -> (r k / r 0%nat <= rho ^ k)%R.
+Proof. exact StopProofs.mean_factor_power_bound. Qed.
+
 Print Assumptions C01_stop_is_on_fresh_residual_partial.
 Print Assumptions C01_stop_test_footprint.
 
